@@ -140,6 +140,7 @@ def c08(tier, repo=None):
     log("  %d sequential histories sampled by TLC (StreamsSeq -simulate, %.0fs)" % (len(seqc), srun.wall_s))
     concc = streams.conc_cases(shapes, rnd, P["conc"])
     directed = streams.merge_close_cases(15 if tier == "quick" else 40)
+    directed += streams.remerge_cases(rnd, 12 if tier == "quick" else 30)
     directed += streams.convert_panic_cases(rnd, 4 if tier == "quick" else 12)
     directed += streams.array_alias_cases(rnd, 2 if tier == "quick" else 6)
     directed += streams.wide_merge_cases(rnd, 5 if tier == "quick" else 15) + streams.precopy_cases(rnd, 3 if tier == "quick" else 8)
@@ -282,6 +283,8 @@ def classify19(sc, reason, obs):
         kind = ("wf-branch-target-also-data-successor" if b.get("bdata") else
                 "wf-branch-target-without-data-input" if b.get("bnone") else "wf-branch-routed-copy-without-data-successor")
         return "%s:%s/%s" % (reason, frame, kind)
+    if any(n.get("cancel") for n in sc["nodes"]):
+        return "%s:%s/%s+context-cancelled-in-last-step+stream-handler" % (reason, frame, sc["mode"])
     if any(n.get("pan") for n in sc["nodes"]):
         return "%s:%s/%s+convert-panic-in-fan-in" % (reason, frame, sc["mode"])
     if len(sc["branch"]) >= 2:
